@@ -110,6 +110,34 @@ def transcript(sc, d):
                 'path': [[ref2(x) for x in wn.taxonomy.shortest_path(a_, b_, simulate_root=True)] for a_, b_ in ((p_, q_), (q_, p_))],
                 'paths': [[ref2(x) for x in pth] for pth in p_.hypernym_paths()],
                 'sim': [repr(sim.wup(p_, q_, simulate_root=True)), repr(sim.path(p_, q_, simulate_root=True))]}
+        # one Wordnet object reused for many read-only queries: each answer depends on its own arguments only,
+        # not on the queries made before it on the same object
+        wr = wn.Wordnet('a:1')
+        ilis_ = sorted({y.ili.id for y in wn.Wordnet('a:1').synsets() if y.ili is not None and y.ili.id})[:2]
+        q0 = sc['queries'][0] if sc['queries'] else 'x'
+        calls = [('synsets', {}), ('words', {}), ('senses', {}), ('synsets', {'pos': 'n'}), ('words', {'pos': 'v'}),
+                 ('synsets', {'form': q0}), ('senses', {'form': q0, 'pos': 'n'})] + \
+                [('synsets', {'ili': i}) for i in ilis_] + [('synsets', {'ili': i, 'pos': 'n'}) for i in ilis_[:1]]
+        order = list(range(len(calls)))
+        if REVERSED:
+            order = order[::-1]
+        else:
+            order = order[-2:] + order[:-2]          # an ILI-restricted query comes first, the unrestricted ones after it
+        got_ = {}
+        for k_ in order:
+            nm_, kw_ = calls[k_]
+            try:
+                got_[k_] = [x.id for x in getattr(wr, nm_)(**kw_)]
+            except Exception as e:
+                got_[k_] = 'raised ' + type(e).__name__
+        fresh_ = {}
+        for k_ in range(len(calls)):
+            nm_, kw_ = calls[k_]
+            try:
+                fresh_[k_] = [x.id for x in getattr(wn.Wordnet('a:1'), nm_)(**kw_)]
+            except Exception as e:
+                fresh_[k_] = 'raised ' + type(e).__name__
+        out['one_object'] = [[calls[k_][0], calls[k_][1], got_[k_], fresh_[k_]] for k_ in range(len(calls))]
         # lookups with a lemmatizer
         lw = wn.Wordnet('a:1', lemmatizer=Morphy(wn.Wordnet('a:1')))
         out['lookups'] = [[q, [x.id for x in lw.words(q)], [x.id for x in lw.synsets(q)], [x.id for x in wn.words(q)]] for q in sc['queries']]
@@ -148,7 +176,9 @@ def main():
         wn.add(f, progress_handler=None)
         t1 = json.dumps(transcript(sc, d), ensure_ascii=False, default=str)
         t2 = json.dumps(transcript(sc, d), ensure_ascii=False, default=str)      # repetition within the process
-        print(json.dumps({'first': t1, 'repeat_equal': t1 == t2, 'second_sha': hashlib.sha256(t2.encode()).hexdigest()}))
+        bad = [c for c in json.loads(t1).get('one_object', []) if c[2] != c[3]]
+        print(json.dumps({'first': t1, 'repeat_equal': t1 == t2, 'second_sha': hashlib.sha256(t2.encode()).hexdigest(),
+                          'one_object_bad': bad[:4]}))
     finally:
         import shutil
         shutil.rmtree(d, ignore_errors=True)
